@@ -28,6 +28,7 @@ def run(rep, tier):
         rep.floor(f'configurations of {K}', total.get(K, 0), want)
     from .. import optable
     optable.tag_agreement(rep)
+    optable.postfix_reduction(rep)
     optable.longest_ties(rep)
     from .. import controls
     controls.e1_controls(rep)
